@@ -254,6 +254,7 @@ func C01(c *core.Ctx) {
 	}
 
 	c01Close(c, sets)
+	handlerDispatch(c, "R1", nil)
 	c01EndPaths(c, "R6", true)
 	// R8: periodic queries are data-plane operations too: a URR is registered for them once (by Create URR)
 	// and Remove URR always unregisters it, so no query outlives the rule (shared with C03 R8)
@@ -500,6 +501,40 @@ func c01EndPaths(c *core.Ctx, rule string, withR7 bool) {
 					"the node table is written only by the association handler and the node-id takeover")
 			}
 		})
+	}
+	// node-id takeover: the old key is dropped BEFORE the node is stored under the new one (when both ids are
+	// equal - a Modification repeating the current Node ID - delete-after-store removes the node from the table:
+	// a later re-association finds nothing to reset)
+	if fn := p.SSAFn(p.Method(pkgPfcp, "PfcpServer", "UpdateNodeID")); fn != nil && rnodes != nil {
+		var stores, dels []ssa.Instruction
+		core.Instrs(fn, func(in ssa.Instruction) {
+			switch x := in.(type) {
+			case *ssa.MapUpdate:
+				if _, f, ok := core.LoadedField(x.Map); ok && f == rnodes {
+					stores = append(stores, x)
+				}
+			case *ssa.Call:
+				if bi, ok := x.Call.Value.(*ssa.Builtin); ok && bi.Name() == "delete" {
+					if _, f, ok := core.LoadedField(x.Call.Args[0]); ok && f == rnodes {
+						dels = append(dels, x)
+					}
+				}
+			}
+		})
+		for _, d := range dels {
+			for _, st := range stores {
+				differ := false // ... unless the delete is guarded by old != new
+				dk, sk := d.(*ssa.Call).Call.Args[1], st.(*ssa.MapUpdate).Key
+				for _, f := range core.FactsAt(d.Block()) {
+					if cmp, ok := f.V.(*ssa.BinOp); ok && ((cmp.Op == token.NEQ && f.True) || (cmp.Op == token.EQL && !f.True)) {
+						if (cmp.X == dk && cmp.Y == sk) || (cmp.X == sk && cmp.Y == dk) {
+							differ = true
+						}
+					}
+				}
+				c.Check(rule, "takeover-order", d.Pos(), !core.Reaches(st, d) || differ, "UpdateNodeID deletes the old table key before it stores the node under the new key (or only when the keys differ)")
+			}
+		}
 	}
 	// deletion handler: success path deletes through the owning node before answering
 	sendRsp := p.Method(pkgPfcp, "PfcpServer", "sendRspTo")
@@ -1013,4 +1048,53 @@ func seid0Paths(c *core.Ctx, rule string, fn *ssa.Function, rDel, remoteSess *ty
 		pos = r.Pos()
 	}
 	c.Check(rule, "seid0-always-deletes", pos, r == nil, "with header SEID 0 every path to a return deletes the session, except when the (CP SEID, peer) lookup fails")
+}
+
+// handlerDispatch: in the session handlers every rule IE is handed to the session method of its own kind:
+// a call sess.<Verb><Kind>(i) takes its IE from the request field named <Verb><Kind> (the per-IE loops are
+// copies of each other: `for _, i := range req.UpdateURR { sess.CreateURR(i) }` would silently re-create).
+func handlerDispatch(c *core.Ctx, rule string, kinds map[string]bool) {
+	p := c.P
+	n := 0
+	for _, fn := range handlerFns(p) {
+		for _, f := range core.WithAnon(fn) {
+			core.Instrs(f, func(in ssa.Instruction) {
+				ci, ok := in.(ssa.CallInstruction)
+				if !ok {
+					return
+				}
+				m := core.Callee(ci)
+				if m == nil || !ruleMethod.MatchString(m.Name()) {
+					return
+				}
+				if nn := core.RecvNamed(m); nn == nil || nn.Obj().Name() != "Sess" {
+					return
+				}
+				mm := ruleMethod.FindStringSubmatch(m.Name())
+				if kinds != nil && !kinds[mm[2]] {
+					return
+				}
+				args := core.CallArgs(ci)
+				if len(args) == 0 {
+					return
+				}
+				// the IE: element of a slice loaded from a field of the request
+				field := ""
+				if ld, ok := core.Unwrap(args[0]).(*ssa.UnOp); ok && ld.Op == token.MUL {
+					if ia, ok := ld.X.(*ssa.IndexAddr); ok {
+						if _, fld, ok := core.LoadedField(ia.X); ok {
+							field = fld.Name()
+						}
+					}
+				}
+				if field == "" {
+					return // built locally (Sess.Close) or passed on: not a request field
+				}
+				n++
+				c.Check(rule, "dispatch:"+core.FnName(f)+":"+m.Name(), ci.Pos(), field == m.Name(),
+					"Sess."+m.Name()+" is given the IEs of the request's "+field+" list (must be "+m.Name()+")")
+			})
+		}
+	}
+	c.Floor(rule, n, 5, "rule IEs dispatched from request fields")
 }
